@@ -145,6 +145,15 @@ def isolated(fn, *args, timeout=300):
     return val
 
 
+def frame_depth(f):
+    "Number of Python frames from `f` outwards (what len(inspect.stack(0)) counts, but cheap)."
+    n = 0
+    while f is not None:
+        n += 1
+        f = f.f_back
+    return n
+
+
 class small_stack:
     """Fault: the code inside runs with only `extra` more Python frames available (a deep
     recursion overflows early, as it would for a much larger input).  restore() gives the
@@ -157,7 +166,7 @@ class small_stack:
     def __enter__(self):
         import inspect
 
-        depth = len(inspect.stack(0))
+        depth = frame_depth(sys._getframe())
         sys.setrecursionlimit(depth + max(self.extra, 3))
         return self
 
